@@ -29,6 +29,8 @@ pub struct RunOpts {
     pub audit: AuditMode,
     pub cap: u64,
     pub record_ops: bool,
+    /// heap utilisation to reach with a live ballast list before the session starts
+    pub ballast: Option<f64>,
 }
 
 impl Default for RunOpts {
@@ -38,6 +40,7 @@ impl Default for RunOpts {
             audit: AuditMode::Off,
             cap: 300_000,
             record_ops: false,
+            ballast: None,
         }
     }
 }
@@ -84,6 +87,10 @@ fn run_case_inner(case: &Case, opts: &RunOpts) -> RunOut {
     let mut sim = Sim::new(&case.knobs, case.gc.clone(), case.slices.clone(), case.sched_seed);
     sim.instr_cap = opts.cap;
     sim.set_gc_mode(opts.mode);
+    let ballast = opts.ballast.or_else(|| case.extra.get("ballast").and_then(|b| b.as_f64()));
+    if let Some(target) = ballast {
+        sim.add_ballast(target);
+    }
     {
         let mut c = sim.ctl.borrow_mut();
         c.audit = opts.audit;
